@@ -19,7 +19,7 @@ def model_check(scratch):
     if not res.ok:
         raise Infra("ConnShutdown: TLC reports %s in the as-built design\n%s" % (res.violated, res.stdout[-3000:]))
     neg = {}
-    for cfg, inv in (("ConnShutdownAsFoundPanic.cfg", "NoPanic"), ("ConnShutdownAsFoundStuck.cfg", "NoStuckLoop")):
+    for cfg, inv in (("ConnShutdownAsFoundPanic.cfg", "NoPanic"), ("ConnShutdownAsFoundStuck.cfg", "NoStuckLoop"), ("ConnShutdownAsFoundOrphan.cfg", "AllCompleted")):
         r = run_tlc(scratch, "ConnShutdown", cfg=cfg, workers=4, timeout=600, copy=False)
         if r.violated != inv:
             raise Infra("negative control %s: expected a violation of %s in the as-found design, TLC says %s" % (cfg, inv, r.violated))
@@ -29,12 +29,12 @@ def model_check(scratch):
 
 def stress(scratch, testbin, iterations, traces):
     out = dict(iterations=0, sends=0, accepted=0, events=0, traces=0, violations=[], runs=[])
-    for test in ("TestConnCloseStress", "TestServerConnCloseStress"):
-        env = dict(os.environ, VERIF_STRESS=str(iterations), VERIF_SEED=str(seed()), VERIF_TRACE_OUT=traces)
+    for test in ("TestConnCloseStress", "TestServerConnCloseStress", "TestConnCloseDuringDelivery"):
+        env = dict(os.environ, VERIF_STRESS=str(iterations if test != "TestConnCloseDuringDelivery" else 60), VERIF_SEED=str(seed()), VERIF_TRACE_OUT=traces)
         p = subprocess.run([testbin, "-test.run", "^%s$" % test, "-test.timeout", "3h"], env=env, stdout=subprocess.PIPE, stderr=subprocess.STDOUT,
                            text=True, errors="replace")
         side = "client" if test == "TestConnCloseStress" else "server"
-        rl = [l for l in p.stdout.split("\n") if l.startswith("STRESS ")]
+        rl = [l for l in p.stdout.split("\n") if l.startswith(("STRESS ", "GSTRESS "))]
         if not rl:
             # the process died: a panic in a goroutine of the library is a verdict by itself (the stack says where)
             txt = p.stdout
@@ -46,7 +46,14 @@ def stress(scratch, testbin, iterations, traces):
                                               replay=dict(check="shutdown", test=test, iterations=iterations, seed=seed())))
                 continue
             raise Infra("%s: no report and no library panic:\n%s" % (test, txt[-3000:]))
-        rep = json.loads(rl[0][7:])
+        rep = json.loads(rl[0][rl[0].index(" ") + 1:])
+        if test == "TestConnCloseDuringDelivery":
+            # the counterexample of ConnShutdownAsFoundOrphan.cfg forced onto a real connection through the gates
+            for prob in rep.get("problems") or []:
+                out["violations"].append(dict(sig="shutdown|close-during-delivery|%s" % re.sub(r"[^a-zA-Z]+", "-", re.sub(r"iteration \d+: ", "", prob))[:60], detail=prob,
+                                              replay=dict(check="shutdown", test=test)))
+            out["runs"].append(dict(test=test, iterations=rep["iterations"]))
+            continue
         for k in ("iterations", "sends", "accepted", "events", "traces"):
             out[k] += rep[k]
         for prob in rep.get("problems") or []:
